@@ -275,6 +275,8 @@ def run(a):
         for b in reg.bounded:
             if b.get("tier", "quick") == "thorough" and tier != "thorough":
                 continue
+            if b.get("props") and pid not in b["props"]:
+                continue
             bounded_results.append((reg, b, run_bounded(reg, b, tier, seed, procs)))
 
     # ---- verdicts ---------------------------------------------------------------------------------
